@@ -10,21 +10,24 @@ MANIFEST = {
              "gap = vault*2^96 - (deposits - liabilities + outstanding fees) of ANY bank by at most an explicit rounding allowance "
              "(accrual: L + total liability shares + asv'/asv + 3 units of 2^-96; withdraw/borrow/liquidation: + one ulp of each share "
              "value; repay_all: + 2^-48 unit) unless it is one of the two sanctioned exceptions (risk-admin token-less repay_all on a "
-             "flagged bank; bankruptcy that wipes out and kills the bank); lifted to histories of any length by induction (sum of the "
-             "allowances), there assuming well-formedness of each visited state. Tied to the real handlers by differential execution "
+             "flagged bank; bankruptcy that wipes out and kills the bank); well-formedness (incl. the instruction-level ledger invariant, "
+             "through liquidation's four legs over two banks and two accounts) is proved to be preserved by every instruction, and the "
+             "bound is lifted to histories of any length by induction (sum of the allowances) with no assumption on intermediate states. Tied to the real handlers by differential execution "
              "of generated instruction sequences in the native sim runtime against the extracted model (0 disagreements), and the "
              "oracle recomputes the per-instruction gap inequality from the real vault balances and bank bytes in exact integers."),
     "design_ref": "DESIGN.md §7 C01",
     "technique": "Coq proof (handler inversion + exact integer inequalities per primitive + induction over histories) + model/implementation correspondence at handler level (real handlers in the sim runtime)",
 }
-THEOREMS = ["C01_step", "C01_allowance_is", "C01_accrual_allowance", "C01_history_partial"]
+THEOREMS = ["C01_step", "C01_allowance_is", "C01_accrual_allowance", "C01_wellformedness_preserved", "C01_HOk2_implies_HOk",
+            "C01_history", "C01_history_given_wellformed_states"]
 RULE = ("instruction sequences (deposit incl. up-to-limit, withdraw / withdraw-all, borrow with origination fee, repay / repay-all, "
         "close_balance, liquidate, bankruptcy, accrue, collect_fees, clock advances, price changes) by 1-4 users over 1-3 banks with "
         "SPL / Token-2022 / transfer-fee mints, seven-point curves and fee settings drawn at random; scenario stream (70%) builds "
         "lender/borrower/liquidation/bankruptcy stories, random stream (30%) mixes everything. Non-trivial = at least 3 successful "
         "fund-moving instructions; distinct = different case line")
 ASSUMPTIONS = [
-    "HOk: share values > 0, valid seven-point curve, transfer-fee bps <= 10000, program fee rate in [0,1], fee buckets representable, bank totals cover every position (C02 invariant); assumed at every state of a history in C01_history_partial",
+    "initial world well-formed (HOk2): share values > 0, valid seven-point curve, transfer-fee bps <= 10000, program fee rate in [0,1], fee buckets representable, bank totals cover every position; preservation is proved (C01_wellformedness_preserved), histories with a bank wipe-out are covered by C01_history_given_wellformed_states for the surviving banks",
+    "liquidator and liquidatee are different accounts (the real program cannot load the same account mutably twice)",
     "token movement is modelled as balance arithmetic with the SPL Token-2022 transfer-fee function (TransferFee.v, compared with the real library in C03's prefee suite); the real SPL token programs run behind the CPI stub in the sim runtime",
     "pass-through banks of third-party venues (Kamino/Drift/Solend asset tags) are outside C01 (the property excludes them); the handlers reject them (WrongAssetTagForStandardInstructions)",
     "the risk-admin token-less repay_all path (sanctioned exception) is modelled and covered by the theorem but not exercised by the level-C generator (the signer is the account authority)",
